@@ -454,25 +454,10 @@ func runC13(h *hz.H) {
 			jobs = append(jobs, job{c, "request:proto_file-order", func() runOut { return runPlugin(pluginCtl, r2, ctl("1,0,-1,0,-1,0,1,0,0"), scratch, "") }, false})
 		}
 		// (7) process configurations
-		deep := filepath.Join(scratch, "a", "deeply", "nested", "working directory")
-		os.MkdirAll(deep, 0o755)
-		cfgs := []struct {
-			name  string
-			env   []string
-			dir   string
-			argv0 string
-		}{
-			{"cwd=/", baseEnv(), "/", ""},
-			{"cwd=deep", baseEnv(), deep, ""},
-			{"HOME+USER+TMPDIR", []string{"PATH=/bin", "HOME=/verif-home-marker", "USER=verifusermarker", "TMPDIR=" + deep, "LANG=de_DE.UTF-8", "TZ=Pacific/Kiritimati"}, scratch, ""},
-			{"empty-env", []string{}, scratch, ""},
-			{"argv0", baseEnv("HOSTNAME=verifhostmarker"), scratch, "/somewhere/else/protoc-gen-verifmarker"},
-			{"TZ=UTC-12", baseEnv("TZ=Etc/GMT+12", "SOURCE_DATE_EPOCH=1"), scratch, ""},
-		}
-		for _, cf := range cfgs {
+		for _, cf := range procConfigs(scratch) {
 			cf := cf
 			c := c13case{Set: s.name, Gen: gen, Param: s.param, Config: cf.name}
-			jobs = append(jobs, job{c, "process-config", func() runOut {
+			jobs = append(jobs, job{c, "process-config:" + cf.name, func() runOut {
 				return runPlugin(pluginCtl, req, append(append([]string(nil), cf.env...), "VERIF_MAPITER=1,0,-1,0,-1,0,1,0,0"), cf.dir, cf.argv0)
 			}, false})
 		}
@@ -526,6 +511,28 @@ func runC13(h *hz.H) {
 	h.Rep.Assumptions = []string{"Go 1.23 map iteration nondeterminism = the word drawn in mapiterinit + per-map hash0; both are owned through the patched runtime/map.go (VERIF_MAPITER); goroutine scheduling is irrelevant: the plugin is single-goroutine", "the wall clock cannot be moved in this sandbox: timestamps are excluded by byte-equality of runs started at different times"}
 }
 
+type procConfig struct {
+	name  string
+	env   []string
+	dir   string
+	argv0 string
+}
+
+// procConfigs: what a process inherits besides its request (working directory, environment incl. time zone and locale,
+// argv[0]); the two TZ entries are 26 hours apart, so any local-time text differs between them whatever the second.
+func procConfigs(scratch string) []procConfig {
+	deep := filepath.Join(scratch, "a", "deeply", "nested", "working directory")
+	os.MkdirAll(deep, 0o755)
+	return []procConfig{
+		{"cwd=/", baseEnv(), "/", ""},
+		{"cwd=deep", baseEnv(), deep, ""},
+		{"HOME+USER+TMPDIR", []string{"PATH=/bin", "HOME=/verif-home-marker", "USER=verifusermarker", "TMPDIR=" + deep, "LANG=de_DE.UTF-8", "TZ=Pacific/Kiritimati"}, scratch, ""},
+		{"empty-env", []string{}, scratch, ""},
+		{"argv0", baseEnv("HOSTNAME=verifhostmarker"), scratch, "/somewhere/else/protoc-gen-verifmarker"},
+		{"TZ=UTC-12", baseEnv("TZ=Etc/GMT+12", "SOURCE_DATE_EPOCH=1"), scratch, ""},
+	}
+}
+
 func replayC13(h *hz.H, s reqSet, c c13case, plugin, pluginCtl, scratch string) {
 	var gen []string
 	for _, f := range s.files {
@@ -552,9 +559,15 @@ func replayC13(h *hz.H, s reqSet, c c13case, plugin, pluginCtl, scratch string) 
 		p = plugin
 		env = baseEnv()
 	}
+	dir, argv0 := scratch, ""
+	for _, cf := range procConfigs(scratch) {
+		if cf.name == c.Config {
+			env, dir, argv0 = append(append([]string(nil), cf.env...), "VERIF_MAPITER=1,0,-1,0,-1,0,1,0,0"), cf.dir, cf.argv0
+		}
+	}
 	differs := false
 	for try := 0; try < 12 && !differs; try++ {
-		ro := runPlugin(p, req, env, scratch, "")
+		ro := runPlugin(p, req, env, dir, argv0)
 		if ro.errS != "" || ro.exit != 0 {
 			differs = true
 		}
